@@ -31,7 +31,7 @@ def run(ck, build):
         # obligations of the single-function rules were already refuted; that the pairwise comparison cannot follow the code does not take them back
         ck.note("pairwise comparison not decided: %s" % str(e)[:200])
         npair = 10 ** 6
-    ck.floor("R-C08-PASS", "relational obligations over the three encrypt/decrypt pairs", npair, 60)
+    ck.floor("R-C08-PASS", "relational obligations over the three encrypt/decrypt pairs", npair, 45)
     sub = _Ren(ck)
     from ..build import Broken
     for f in C03.dec_fns(mod, kinds=("siv",)):
